@@ -82,6 +82,11 @@ const fn chunk_to_u64(mut chunk: u64) -> u64 {
         .wrapping_add((chunk >> 32) & 0x3fff)
 }
 
+// Limit for accumulating the digits of an exponent. The limit exceeds the
+// length of any literal by far, so that the number of fractional digits can
+// not compensate an exponent beyond that limit.
+const MAX_ACCUM_EXP: i128 = 1 << 100;
+
 // Bytes wrapper specialized for parsing decimal number literals
 struct AsciiDecLit<'a> {
     bytes: &'a [u8],
@@ -150,16 +155,16 @@ impl<'a> AsciiDecLit<'a> {
 
     /// Convert the leading sequence of decimal digits in `self` (if any) into
     /// an int and accumulate it into `coeff`.
-    // The function uses wrapping_mul and wrapping_add, so overflow can
-    // happen; it must be checked later!
+    // The function uses saturating_mul and saturating_add, so in case of an
+    // overflow `coeff` is stuck at u128::MAX; this must be checked later!
     fn accum_coeff(&mut self, coeff: &mut u128) -> usize {
         let start_len = self.len();
         // First, try chunks of 8 digits
         while let Some(k) = self.read_u64() {
             if chunk_contains_8_digits(k) {
                 *coeff = coeff
-                    .wrapping_mul(100000000)
-                    .wrapping_add(chunk_to_u64(k) as u128);
+                    .saturating_mul(100000000)
+                    .saturating_add(chunk_to_u64(k) as u128);
                 // Safety: safe because of call to self.read_u64 above
                 unsafe {
                     self.skip_n(8);
@@ -172,7 +177,7 @@ impl<'a> AsciiDecLit<'a> {
         while let Some(c) = self.first() {
             let d = c.wrapping_sub(b'0');
             if d < 10 {
-                *coeff = coeff.wrapping_mul(10).wrapping_add(d as u128);
+                *coeff = coeff.saturating_mul(10).saturating_add(d as u128);
                 // Safety: safe because of call to self.first above
                 unsafe {
                     self.skip_1();
@@ -186,16 +191,16 @@ impl<'a> AsciiDecLit<'a> {
 
     /// Convert the leading sequence of decimal digits in `self` (if any) into
     /// an int and accumulate it into `exp`.
-    // The function uses wrapping_mul and wrapping_add, but overflow is
-    // prevented by limiting the result to a value which will cause an error
-    // later!
-    fn accum_exp(&mut self, exp: &mut isize) -> usize {
+    // Overflow is prevented by limiting the result to a value which is
+    // greater than the length of any literal and therefore will cause an
+    // error later!
+    fn accum_exp(&mut self, exp: &mut i128) -> usize {
         let start_len = self.len();
         while let Some(c) = self.first() {
             let d = c.wrapping_sub(b'0');
             if d < 10 {
-                if *exp < 0x1000000 {
-                    *exp = exp.wrapping_mul(10).wrapping_add(d as isize);
+                if *exp < MAX_ACCUM_EXP {
+                    *exp = *exp * 10 + d as i128;
                 }
                 // Safety: safe because of call to self.first above
                 unsafe {
@@ -241,14 +246,16 @@ pub fn str_to_dec(lit: &str) -> Result<(i128, isize), ParseDecimalError> {
     if lit.is_empty() {
         return Err(ParseDecimalError::Invalid);
     }
+    let len = lit.len();
     lit.skip_leading_zeroes();
+    let n_leading_zeroes = len - lit.len();
     if lit.is_empty() {
         // There must have been atleast one zero. Ignore sign.
         return Ok((0, 0));
     }
     let mut coeff = 0_u128;
     // Parse integral digits.
-    let n_int_digits = lit.accum_coeff(&mut coeff);
+    let n_int_digits = n_leading_zeroes + lit.accum_coeff(&mut coeff);
     // Check for radix point and parse fractional digits.
     let mut n_frac_digits = 0_usize;
     if let Some(c) = lit.first() {
@@ -262,18 +269,12 @@ pub fn str_to_dec(lit: &str) -> Result<(i128, isize), ParseDecimalError> {
     if n_digits == 0 {
         return Err(ParseDecimalError::Invalid);
     }
-    // check for overflow
-    // 1. 10^e > i128::MAX for e > 39
-    // 2. e = 39 && coeff < 10³⁸ (overflow occured during accumulation)
-    // 3. coeff > i128::MAX
-    if n_digits > 39
-        || n_digits == 39
-            && coeff < 100000000000000000000000000000000000000_u128
-        || coeff > i128::MAX as u128
-    {
+    // Check for overflow (an overflow during accumulation left coeff at
+    // u128::MAX).
+    if coeff > i128::MAX as u128 {
         return Err(ParseDecimalError::InternalOverflow);
     }
-    let mut exp = 0_isize;
+    let mut exp = 0_i128;
     // check for explicit exponent
     if let Some(c) = lit.first() {
         if *c == b'e' || *c == b'E' {
@@ -296,11 +297,11 @@ pub fn str_to_dec(lit: &str) -> Result<(i128, isize), ParseDecimalError> {
                 _ => false,
             };
             let n_exp_digits = lit.accum_exp(&mut exp);
+            if n_exp_digits == 0 {
+                return Err(ParseDecimalError::Invalid);
+            }
             if exp_is_negative {
                 exp = -exp;
-            }
-            if n_exp_digits > 2 {
-                return Err(ParseDecimalError::FracDigitLimitExceeded);
             }
         } else {
             return Err(ParseDecimalError::Invalid);
@@ -309,14 +310,21 @@ pub fn str_to_dec(lit: &str) -> Result<(i128, isize), ParseDecimalError> {
     if !lit.is_empty() {
         return Err(ParseDecimalError::Invalid);
     }
-    exp -= n_frac_digits as isize;
-    if -exp > crate::MAX_N_FRAC_DIGITS as isize {
+    exp -= n_frac_digits as i128;
+    if -exp > crate::MAX_N_FRAC_DIGITS as i128 {
         return Err(ParseDecimalError::FracDigitLimitExceeded);
     }
+    if coeff == 0 {
+        // 0 * 10 ^ exp == 0 * 10 ^ 0 for every exp >= 0
+        exp = exp.min(0);
+    } else if exp > 38 {
+        // 10 ^ 39 > i128::MAX
+        return Err(ParseDecimalError::InternalOverflow);
+    }
     if is_negative {
-        Ok((-(coeff as i128), exp))
+        Ok((-(coeff as i128), exp as isize))
     } else {
-        Ok((coeff as i128, exp))
+        Ok((coeff as i128, exp as isize))
     }
 }
 
